@@ -659,7 +659,8 @@ HandOnOnce  == \A t \in T : handon[t] <= 1
 ReleaseOnce == \A t \in T : unsched[t] <= 1
 NotBoth     == \A t \in T : Cardinality(collected[t]) <= 1
 AnnounceOnce == \A t \in T : cann[t] <= 1
-AllDone == \A p \in ProcSet : pc[p] = "Done"
+\* (the process of a task which was never spawned never runs: it counts as done)
+AllDone == \A p \in ProcSet : pc[p] = "Done" \/ (p \in T /\ pst[p] = "unborn")
 \* never left behind: when every thread is done every accepted task was handed
 \* on once and its resources were released once
 NeverLeftBehind == AllDone => \A t \in T : handon[t] = 1 /\ unsched[t] = 1
